@@ -348,6 +348,14 @@ func runC08(c *Ctx) {
 				}
 			}
 		}
+		// or the whole loop over the header names sits in a helper that is handed the headers
+		if len(keys) == 0 {
+			for _, g := range c.helpersOf(vs, 1) {
+				for _, t := range c.constSetTests(g, nil, func(p string) bool { return strings.Contains(p, "range(") }) {
+					keys = t.set
+				}
+			}
+		}
 		c.Check("C08.X2", "client-whitelist", eqStrs(keys, []string{"alg", "kid"}), vs.Pos(), fmt.Sprintf("client signer-header whitelist %v (parser's is checked to be {alg,kid} by C02.G4)", keys))
 	}
 	c.Min("C08.X2", 1)
@@ -495,11 +503,17 @@ func runC08(c *Ctx) {
 			}
 		})
 		seen := reach(swF.Blocks[0], cut)
+		nilRefusal := false
 		for b := range seen {
 			if r, isR := b.Instrs[len(b.Instrs)-1].(*ssa.Return); isR && maySucceed(r) {
 				// a helper that reports refusal through a comma-ok result: (…, false); the caller's handling of it is
 				// decided below on the helper call
 				if n := len(r.Results); swCall != nil && n > 0 && isBoolType(r.Results[n-1].Type()) && c.Path(r.Results[n-1], nil) == "false" {
+					continue
+				}
+				// … or through "no request model": a nil result, which the caller must refuse
+				if swCall != nil && len(r.Results) == 1 && isNilConst(r.Results[0]) {
+					nilRefusal = true
 					continue
 				}
 				okDef = false
@@ -512,6 +526,9 @@ func runC08(c *Ctx) {
 		if swCall != nil {
 			// the helper's refusal is GetAnchoredOperation's refusal
 			req, _, _ := c.Guard(gao, nil, &GCheck{Name: "request model built", NoDescend: true, MatchCall: func(c *Ctx, call *ssa.Call, env Env) bool { return call == swCall }}, nil)
+			if nilRefusal {
+				req, _, _ = c.Guard(gao, nil, cmpReject("no request model: refused", token.EQL, pathIs(c.Path(swCall, nil)), pathIs("nil")), nil)
+			}
 			okDef = okDef && req
 		}
 		c.Check("C08.P2", "anchored:unknown-type-error", okDef, gao.Pos(), "an unknown operation type yields an error")
@@ -804,7 +821,45 @@ func runC08(c *Ctx) {
 		sort.Strings(foreign)
 		c.Check("C08.P3", "update-patches:values-handed-on-as-they-are", len(foreign) == 0, cup.Pos(), fmt.Sprintf("libraries reached while building update patches besides the JSON codec / fmt / errors / strings: %v", foreign))
 	}
-	c.Min("C08.P3", 9+3+2+3+7+2)
+	// the options the client is configured with reach the builders: every With… option stores what it is given (or
+	// appends it) whatever the options hold already — an option that yields to a value set before it is dropped,
+	// because the client presets its defaults before it applies the caller's options
+	{
+		n := 0
+		var bad []string
+		for _, f := range c.Funcs {
+			pp := pkgPathOf(f)
+			if !strings.HasPrefix(pp, modPkg+pST+"/option/") || f.Parent() != nil || f.Object() == nil || !f.Object().Exported() || !strings.HasPrefix(f.Name(), "With") || f.Blocks == nil {
+				continue
+			}
+			for _, lit := range f.AnonFuncs {
+				if len(lit.Params) != 1 {
+					continue
+				}
+				n++
+				stores := 0
+				forEachInstr(lit, func(in ssa.Instruction) {
+					switch x := in.(type) {
+					case *ssa.Store:
+						if fa, isFA := x.Addr.(*ssa.FieldAddr); isFA && fa.X == ssa.Value(lit.Params[0]) {
+							stores++
+						}
+					case *ssa.If:
+						for v := range backSlice(x.Cond) {
+							if fa, isFA := v.(*ssa.FieldAddr); isFA && fa.X == ssa.Value(lit.Params[0]) {
+								bad = append(bad, c.pos(x.Pos())+": "+short(f.String())+" decides on the options' own "+fieldName(fa.X.Type(), fa.Field))
+							}
+						}
+					}
+				})
+				if stores == 0 {
+					bad = append(bad, c.pos(lit.Pos())+": "+short(f.String())+" stores nothing into the options")
+				}
+			}
+		}
+		c.Check("C08.P3", "options:store-what-they-are-given", n >= 20 && len(bad) == 0, 0, fmt.Sprintf("%d With… options of the request builders; each stores its argument without consulting the options' current content", n), bad...)
+	}
+	c.Min("C08.P3", 9+3+2+3+7+2+1)
 
 	// ---- O1 remove-before-add
 	cup := c.Fn(pST, "createUpdatePatches")
@@ -884,6 +939,27 @@ func runC08(c *Ctx) {
 				okOrder = len(kinds) == 6 && len(bad) == 0
 			}
 		}
+		if !okOrder {
+			// collector form: the builders are handed, one call after the other, to a collecting helper that appends what
+			// the builder it is given returns — the patch order is the order of those calls
+			if kinds, ok := c.builderCallSequence(cup); ok {
+				ks = kinds
+				bad = nil
+				seenAdd := false
+				for _, k := range kinds {
+					if strings.HasPrefix(k, "add") {
+						seenAdd = true
+					}
+					if strings.HasPrefix(k, "remove") && seenAdd {
+						bad = append(bad, "an add builder is handed over before "+k)
+					}
+					if k == "?" {
+						bad = append(bad, "unclassified builder handed to the collector")
+					}
+				}
+				okOrder = len(kinds) == 6 && len(bad) == 0
+			}
+		}
 		c.Check("C08.O1", "createUpdatePatches:remove-before-add", okOrder, cup.Pos(), fmt.Sprintf("patch builders in emission order %v; order violations %v", ks, bad))
 	}
 	c.Min("C08.O1", 1)
@@ -913,6 +989,15 @@ func runC08(c *Ctx) {
 	c.signerVerifierTables("C08.X3")
 	c.Min("C08.X3", 12)
 	c.Assume("acceptance of the built request by the parser and the resulting document are not decided (behavioural); did-go document serialisation is outside the claim")
+	// the keys a built request carries are the JWKs pubkey.GetPublicKeyJWK produces: an update signed with a key whose
+	// JWK was written at the wrong width is refused by the applier — the encoding rules of C16 are part of "accepted"
+	{
+		// (with the rendering switches of this check put aside: C16's rules name values the way its own run does)
+		oi, oh := c.inlineFns, c.inlineHelpers
+		c.inlineFns, c.inlineHelpers = nil, false
+		runC16(c)
+		c.inlineFns, c.inlineHelpers = oi, oh
+	}
 }
 
 // patchKindOf: which patch constructor a helper (transitively) calls: add-* / remove-*.
@@ -1159,4 +1244,79 @@ func (c *Ctx) docBytesRule(rule string) {
 	} else {
 		c.Unresolved(rule, "(*doc.Doc).JSONBytes")
 	}
+}
+
+// builderCallSequence: cup hands patch builders (function values) to one collecting helper in a straight sequence of
+// calls, each call dominating the next; the collector has a single append, of what the function it was handed returns.
+// Returns the kinds of the builders in call order.
+func (c *Ctx) builderCallSequence(cup *ssa.Function) ([]string, bool) {
+	type site struct {
+		cl   *ssa.Call
+		kind string
+	}
+	var sites []site
+	var collector *ssa.Function
+	fnIdx := -1
+	okAll := true
+	forEachInstr(cup, func(in ssa.Instruction) {
+		cl, ok := in.(*ssa.Call)
+		if !ok {
+			return
+		}
+		g := cl.Call.StaticCallee()
+		if g == nil || !inModule(g) || g.Blocks == nil {
+			return
+		}
+		for i, a := range cl.Call.Args {
+			if _, isSig := a.Type().Underlying().(*types.Signature); !isSig {
+				continue
+			}
+			fn := funcValueOf(a)
+			if fn == nil || !inModule(fn) {
+				continue
+			}
+			if collector == nil {
+				collector, fnIdx = g, i
+			}
+			if g != collector || i != fnIdx {
+				okAll = false
+			}
+			sites = append(sites, site{cl, c.patchKindOf(fn, 0)})
+		}
+	})
+	if !okAll || collector == nil || len(sites) == 0 || fnIdx >= len(collector.Params) {
+		return nil, false
+	}
+	// the collector: one append, of the result of calling the function it was handed
+	nApp, fromParam := 0, false
+	forEachInstr(collector, func(in ssa.Instruction) {
+		cl, ok := in.(*ssa.Call)
+		if !ok {
+			return
+		}
+		if bi, isB := cl.Call.Value.(*ssa.Builtin); isB && bi.Name() == "append" {
+			nApp++
+			for v := range backSlice(cl.Call.Args[1]) {
+				if pc, isC := v.(*ssa.Call); isC && pc.Call.Value == ssa.Value(collector.Params[fnIdx]) {
+					fromParam = true
+				}
+			}
+		}
+	})
+	if nApp != 1 || !fromParam || len(naturalLoops(collector)) > 0 {
+		return nil, false
+	}
+	// call order: a chain under dominance
+	sort.SliceStable(sites, func(i, j int) bool { return instrDominates(sites[i].cl, sites[j].cl) })
+	var kinds []string
+	for i, st := range sites {
+		if i > 0 && !instrDominates(sites[i-1].cl, st.cl) {
+			return nil, false
+		}
+		kinds = append(kinds, st.kind)
+	}
+	if len(naturalLoops(cup)) > 0 {
+		return nil, false
+	}
+	return kinds, true
 }
